@@ -32,8 +32,42 @@ def get_seed():
 
 
 # --------------------------------------------------------------------------------------------- solver helper
+def cvc5_enabled():
+    return os.environ.get("VERIF_CVC5", "") == "1" or (os.environ.get("VERIF_CVC5", "") != "0" and get_tier() == "thorough")
+
+
+def cvc5_recheck(sexpr, tlimit_ms=60000):
+    """re-decide a z3 query with cvc5 1.4 (python API).  Returns 'sat' | 'unsat' | 'unknown' | 'skipped: <why>'"""
+    if "FloatingPoint" in sexpr or "fp." in sexpr or "RoundingMode" in sexpr or "to_fp" in sexpr:
+        return "skipped: floating point"
+    try:
+        import cvc5
+    except Exception as e:  # pragma: no cover
+        return f"skipped: no cvc5 ({e})"
+    try:
+        slv = cvc5.Solver()
+        slv.setOption("tlimit-per", str(int(tlimit_ms)))
+        ip = cvc5.InputParser(slv)
+        ip.setStringInput(cvc5.InputLanguage.SMT_LIB_2_6, "(set-logic ALL)\n" + sexpr + "\n(check-sat)\n", "q")
+        sm = ip.getSymbolManager()
+        res = "unknown"
+        while True:
+            cmd = ip.nextCommand()
+            if cmd.isNull():
+                break
+            out = cmd.invoke(slv, sm).strip()
+            if out in ("sat", "unsat", "unknown"):
+                res = out
+            elif out.startswith("(error"):
+                return "skipped: " + out[:80]
+        return res
+    except Exception as e:
+        return "skipped: " + str(e)[:80]
+
+
 class Stats:
     def __init__(self):
+        self.cvc5 = {"agree": 0, "disagree": 0, "unknown": 0, "skipped": 0}
         self.q = {"unsat": 0, "sat": 0, "unknown": 0}
         self.solver_s = 0.0
         self.digests = set()
@@ -41,7 +75,7 @@ class Stats:
 
     def as_dict(self):
         return {"queries": dict(self.q), "solver_s": round(self.solver_s, 3), "digests": sorted(self.digests),
-                "samples": self.samples[:3]}
+                "samples": self.samples[:3], "cvc5": dict(self.cvc5)}
 
 
 def z3check(assertions, timeout_ms, stats=None, label=None, tactic=None):
@@ -66,6 +100,17 @@ def z3check(assertions, timeout_ms, stats=None, label=None, tactic=None):
             if label and len(stats.samples) < 3:
                 stats.samples.append({"obligation": label, "result": r, "solver_s": round(dt, 3),
                                       "smt2_head": sx[:600]})
+            if r in ("sat", "unsat") and dt < 60 and tactic is None and cvc5_enabled():
+                c = cvc5_recheck(sx)
+                if c == r:
+                    stats.cvc5["agree"] += 1
+                elif c in ("sat", "unsat"):
+                    stats.cvc5["disagree"] += 1
+                    r = "unknown"   # two solvers disagree: a harness error, never a verdict
+                elif c == "unknown":
+                    stats.cvc5["unknown"] += 1
+                else:
+                    stats.cvc5["skipped"] += 1
         except Exception:
             pass
     return r, (s.model() if r == "sat" else None)
@@ -288,6 +333,7 @@ def finish(pid, tier, level, obs, results, *, t0, funcs, bounds, stubs, assumpti
     solver_s = 0.0
     digests = set()
     samples = []
+    cv = {"agree": 0, "disagree": 0, "unknown": 0, "skipped": 0}
     proved = cex_new = cex_known = inconclusive = witnesses = 0
     lines = []
     problems = []
@@ -298,6 +344,8 @@ def finish(pid, tier, level, obs, results, *, t0, funcs, bounds, stubs, assumpti
         for k in q:
             q[k] += (st.get("queries") or {}).get(k, 0)
         solver_s += st.get("solver_s", 0.0)
+        for k in cv:
+            cv[k] += (st.get("cvc5") or {}).get(k, 0)
         digests.update(st.get("digests", []))
         for s in st.get("samples", []):
             if len(samples) < 6:
@@ -356,9 +404,10 @@ def finish(pid, tier, level, obs, results, *, t0, funcs, bounds, stubs, assumpti
     cov = {
         "evaluations": max(1, q["unsat"] + q["sat"] + q["unknown"]),
         "distinct_nontrivial": len(digests),
-        "rule": "one evaluation = one solver check-sat over symbolic inputs; distinct = distinct SMT-LIB text of the query "
-                "(sha1); non-trivial = the query reached the solver (terms that simplify to a constant are not counted) and "
-                "its harness has a satisfiable reachability twin",
+        "rule": "engine K: one evaluation = one z3 check-sat over symbolic inputs; distinct = distinct SMT-LIB text of the query "
+                "(sha1); non-trivial = the query reached the solver (terms that simplify to a constant are not counted). "
+                "engine W: one evaluation = one CrossHair condition (a pre/post contract explored over all paths; CrossHair's "
+                "internal z3 queries are not counted); distinct by condition name",
         "samples": samples or [{"note": "no solver query recorded"}],
         "obligations": n_prove,
         "discharged": proved,
@@ -366,13 +415,15 @@ def finish(pid, tier, level, obs, results, *, t0, funcs, bounds, stubs, assumpti
         "witnesses_found": witnesses,
         "solver_queries": q,
         "solver_time_s": round(solver_s, 2),
+        "cvc5_crosscheck": dict(cv, enabled=cvc5_enabled(), note="engine-K bit-vector/UF/array/integer queries decided by z3 in < 60 s are re-decided by cvc5 1.4.0; floating-point queries are skipped; a disagreement turns the obligation inconclusive"),
         "functions_encoded": sorted(set(funcs)),
         "bounds": bounds,
         "stubs_and_axioms": stubs,
         "outside_the_claim": outside,
         "explanation": explanation,
         "checker_cmd": " ".join(sys.argv),
-        "trusted_base": ["numba front end + type inference (used to produce the encoded IR)", "z3 4.x/5.x", "engine/nbsym.py interpreter (validated by differential runs each execution)"],
+        "trusted_base": ["numba front end + type inference (used to produce the encoded IR)", "z3 5.1.0 (z3-solver wheel)", "engine/nbsym.py interpreter (validated by differential runs each execution)"]
+                        + (["CrossHair 0.0.110 (Python semantics, path exhaustion)", "engine/shim/shims.py environment model (every counterexample is re-judged on the real library)"] if any(o.name.startswith("W ") for o in obs) else []),
         "exhaustive": False,
         "per_obligation": [{"name": o.name, "kind": o.kind, "status": r.get("status"), "wall_s": r.get("wall_s"),
                             "bounds": o.bounds, "note": r.get("note")} for o, r in zip(obs, results)][:400],
@@ -395,7 +446,8 @@ def finish(pid, tier, level, obs, results, *, t0, funcs, bounds, stubs, assumpti
     for ln in lines:
         print(ln, flush=True)
     print(f"{pid} [{tier}]: obligations={n_prove} proved={proved} violations={cex_new} known={cex_known} "
-          f"inconclusive={inconclusive} witnesses={witnesses} queries={q} solver_s={solver_s:.1f} wall_s={time.time() - t0:.1f}", flush=True)
+          f"inconclusive={inconclusive} witnesses={witnesses} queries={q} solver_s={solver_s:.1f} wall_s={time.time() - t0:.1f}"
+          + (f" cvc5={cv}" if cvc5_enabled() else ""), flush=True)
     if cex_new:
         return 1
     if inconclusive:
